@@ -64,6 +64,19 @@ CHECKS = {
              "obligations of this check when present in the evidence (names glv:*, powersofx:*, loop:*); what is not listed there is not claimed.",
         tech="LLVM-IR symbolic execution with loop cutting (one inductive step from an arbitrary invariant state); QF_BV VCs and integer lemmas in z3; native replay",
         ref="5/C06"),
+    "C11": dict(
+        cat="proof",
+        text="src/wkdibe/api.cpp is executed symbolically from the IR with the group layer replaced by formal discrete logarithms (polynomials in "
+             "formal symbols for randomness and sampled generators, integer-term coefficients for attribute values). Histories by induction: "
+             "keygen / nondelegable_keygen from setup's post-state (base) and qualifykey / nondelegable_qualifykey / resamplekey from an ARBITRARY "
+             "well-formed key (step) yield exactly the well-formed key of the accumulated pattern (a0, a1, bsig, the ascending free-slot list and "
+             "its count, array bounds as the bindings allocate them); decrypt(encrypt(m)) = m and decrypt_master for every well-formed key; setup "
+             "establishes the parameter relation. z3 decides every coefficient comparison modulo r for all 256-bit attribute values. Slot shapes "
+             "(parent pattern x documented list shape x flags) are enumerated for l <= 3 (quick) / 4 (thorough).",
+        note="Bound: l <= 4 by enumeration of shapes; values, randomness and history length unbounded. Trusted: the group layer's specification (C01, C05-C08), "
+             "independence of sampled scalars/generators (formal symbols). Key distribution beyond 'rho contains a fresh uniform term' is not analysed.",
+        tech="LLVM-IR symbolic execution over formal discrete logarithms (D-GRP); induction over delegation histories; integer VCs modulo r in z3; native replay",
+        ref="5/C11"),
     "C18": dict(
         cat="proof",
         text="Aliasing patterns permitted by each signature are enumerated from the IR (non-noalias parameters of the output's type); every "
